@@ -119,7 +119,7 @@ func printSummary(r *HarnessResult) {
 		r.Harness, r.Params, r.TotalPaths, r.Paths, r.Complete, r.WallS, r.SolverS, r.Solver.Queries, r.Solver.Sat, r.Solver.Unsat, r.Solver.Unknown, r.Steps)
 	fmt.Printf("   values: %d calls %.1fs\n", r.Solver.ValuesCalls, r.Solver.ValuesTime.Seconds())
 	for id, a := range r.Asserts {
-		fmt.Printf("   assert %-30s discharged=%d trivial=%d violated=%d unknown=%d\n", id, a.Discharged, a.Trivial, a.Violated, a.Unknown)
+		fmt.Printf("   assert %-30s discharged=%d normalised=%d trivial=%d violated=%d unknown=%d\n", id, a.Discharged, a.Normalised, a.Trivial, a.Violated, a.Unknown)
 	}
 	for id, n := range r.Witnesses {
 		fmt.Printf("   witness %-29s %d\n", id, n)
